@@ -115,7 +115,7 @@ template <typename T> T sentinel() {
     else return (T)-987654321;
 }
 
-// header record: host reference + launch facts; then one record per schedule: the whole buffer including guards.
+// header record: host reference; prep record: the launch was prepared; then one record per schedule: the whole buffer including guards.
 // schedule line = block_size n t0 b0 t1 b1 ...
 template <typename view_t> void run(const std::string& id, const view_t& view, const std::vector<std::vector<long long>>& schedules) {
     if constexpr (meta::is_maybe_v<view_t>) {
@@ -134,13 +134,13 @@ template <typename view_t> void run(const std::string& id, const view_t& view, c
             std::vector<size_t> out_shape(shp.begin(), shp.end());
             size_t N = (size_t)nm::size(ref);
             const T S = sentinel<T>();
-            // host side of the launch
+            pg::emit(id, "\"hdr\":true,\"ref\":" + pg::obs(ref) + ",\"N\":" + std::to_string(N) + ",\"G\":" + std::to_string(G) + ",\"sentinel\":" + pg::num(S));
+            // host side of the launch (cuda/evaluator.hpp:33-36, context_t::run)
             arena mem;
             auto f = fn::get_function_composition(view);
             const auto& operands = fn::get_function_operands(view);
             auto dev = device_operands(operands, mem);
-            pg::emit(id, "\"hdr\":true,\"ref\":" + pg::obs(ref) + ",\"N\":" + std::to_string(N) + ",\"G\":" + std::to_string(G) + ",\"sentinel\":" + pg::num(S)
-                + ",\"n_operands\":" + std::to_string((long long)meta::len_v<meta::remove_cvref_t<decltype(dev)>>));
+            pg::emit(id, "\"prep\":true,\"n_operands\":" + std::to_string((long long)meta::len_v<meta::remove_cvref_t<decltype(dev)>>));
             size_t k = 0;
             for (auto& s : schedules) {
                 if (s.size() < 2 || (long long)s.size() != 2 + 2 * s[1]) { k++; continue; }
